@@ -15,6 +15,7 @@ import (
 	"os/exec"
 	"path/filepath"
 	"regexp"
+	"sort"
 	"strings"
 )
 
@@ -107,36 +108,10 @@ func runControls(repo, tier, prop string, base map[string]bool) []controlOutcome
 				edited = regexp.MustCompile(`\b`+regexp.QuoteMeta(ct.Old)+`\b`).ReplaceAllString(string(src), ct.New)
 			}
 			os.WriteFile(filepath.Join(tmp, ct.File), []byte(edited), 0o644)
-			// the edited tree must still build
-			cmd := exec.Command("go", "build", "./...")
-			cmd.Dir = tmp
-			cmd.Env = append(os.Environ(), "GOFLAGS=-mod=mod", "GOPROXY=off", "GOSUMDB=off", "GOWORK=off", "GOTOOLCHAIN=local")
-			if b, err := cmd.CombinedOutput(); err != nil {
-				oc.Outcome = "does-not-build"
-				oc.Detail = firstLine(string(b))
+			newBad, oc2, det := evalScratch(tmp, prop, base)
+			if oc2 != "" {
+				oc.Outcome, oc.Detail = oc2, det
 				return
-			}
-			c, err := loadRepo(tmp)
-			if err != nil {
-				oc.Outcome = "does-not-build"
-				oc.Detail = err.Error()
-				return
-			}
-			c.Tier = "quick"
-			r := &Report{Prop: prop, Extra: map[string]interface{}{}}
-			func() {
-				defer func() {
-					if p := recover(); p != nil {
-						r.Undecided(prop, "PANIC", "analyser", "-", fmt.Sprint(p))
-					}
-				}()
-				props[prop](c, r)
-			}()
-			var newBad []string
-			for _, o := range r.Obls {
-				if o.Verdict != "ok" && !base[o.Key] {
-					newBad = append(newBad, o.Key)
-				}
 			}
 			if kind == "benign" {
 				if len(newBad) == 0 {
@@ -157,6 +132,89 @@ func runControls(repo, tier, prop string, base map[string]bool) []controlOutcome
 			oc.Outcome = "MISSED"
 			if len(newBad) > 0 {
 				oc.Detail = "other obligations fired: " + newBad[0]
+			}
+		}()
+		out = append(out, oc)
+	}
+	return out
+}
+
+// evalScratch builds the scratch tree, loads it and evaluates the property's rules on it; it returns the keys of
+// the obligations that are not ok and were ok on the real tree.
+func evalScratch(tmp, prop string, base map[string]bool) (newBad []string, outcome, detail string) {
+	cmd := exec.Command("go", "build", "./...")
+	cmd.Dir = tmp
+	cmd.Env = append(os.Environ(), "GOFLAGS=-mod=mod", "GOPROXY=off", "GOSUMDB=off", "GOWORK=off", "GOTOOLCHAIN=local")
+	if b, err := cmd.CombinedOutput(); err != nil {
+		return nil, "does-not-build", firstLine(string(b))
+	}
+	c, err := loadRepo(tmp)
+	if err != nil {
+		return nil, "does-not-build", err.Error()
+	}
+	c.Tier = "quick"
+	r := &Report{Prop: prop, Extra: map[string]interface{}{}}
+	func() {
+		defer func() {
+			if p := recover(); p != nil {
+				r.Undecided(prop, "PANIC", "analyser", "-", fmt.Sprint(p))
+			}
+		}()
+		props[prop](c, r)
+	}()
+	for _, o := range r.Obls {
+		if o.Verdict != "ok" && !base[o.Key] {
+			newBad = append(newBad, o.Key)
+		}
+	}
+	return newBad, "", ""
+}
+
+// runSeedReplays: every stored seeded change of this property (/verif/seeded/<id>/patch.diff, produced by an agent
+// that saw only the property text) is applied to a scratch copy of the CURRENT tree; the property's own check must
+// report at least one new failing obligation. A patch that no longer applies is reported as unavailable.
+func runSeedReplays(repo, verif, prop string, base map[string]bool) []controlOutcome {
+	var out []controlOutcome
+	dirs, _ := filepath.Glob(filepath.Join(verif, "seeded", prop+"-*"))
+	sort.Strings(dirs)
+	for _, d := range dirs {
+		patch := filepath.Join(d, "patch.diff")
+		if _, err := os.Stat(patch); err != nil {
+			continue
+		}
+		oc := controlOutcome{Name: "seed " + filepath.Base(d), Kind: "seed"}
+		tmp, err := os.MkdirTemp("", "yaccverif-seed-")
+		if err != nil {
+			oc.Outcome, oc.Detail = "unavailable", err.Error()
+			out = append(out, oc)
+			continue
+		}
+		func() {
+			defer os.RemoveAll(tmp)
+			if err := copyTree(repo, tmp); err != nil {
+				oc.Outcome, oc.Detail = "unavailable", err.Error()
+				return
+			}
+			cmd := exec.Command("git", "apply", "--whitespace=nowarn", patch)
+			cmd.Dir = tmp
+			cmd.Env = append(os.Environ(), "GIT_DIR=/nonexistent", "GIT_CEILING_DIRECTORIES="+filepath.Dir(tmp))
+			if b, err := cmd.CombinedOutput(); err != nil {
+				oc.Outcome, oc.Detail = "unavailable", "patch does not apply to the current tree: "+firstLine(string(b))
+				return
+			}
+			newBad, oc2, det := evalScratch(tmp, prop, base)
+			if oc2 != "" {
+				oc.Outcome, oc.Detail = oc2, det
+				return
+			}
+			if len(newBad) == 0 {
+				oc.Outcome = "MISSED"
+				return
+			}
+			oc.Outcome = "fired"
+			oc.Obligation = newBad[0]
+			if len(newBad) > 1 {
+				oc.Detail = fmt.Sprintf("+%d more", len(newBad)-1)
 			}
 		}()
 		out = append(out, oc)
